@@ -1,0 +1,138 @@
+//go:build verif
+
+package sdpunmarshaler
+
+// Contracts checked by /verif/govc (see /verif/DESIGN.md). Comment-only file.
+//
+// C05, totality: parsing any byte string as SDP never panics. The parser is a state machine
+// over lines; the media-level functions index the last media description and the repeat-time
+// function the last time description, so the proof carries the invariant
+//   state == stateMedia            ==> at least one media description, the last one non-nil
+//   state == stateTimeDescription  ==> at least one time description
+// through the line loop (a range-over-func loop) and through the two dispatch functions.
+
+//@ spec hasMedia(s *sdp.SessionDescription) bool = len(s.MediaDescriptions) >= 1 && s.MediaDescriptions[len(s.MediaDescriptions)-1] != nil
+
+// --- helpers -------------------------------------------------------------------------------
+//@ func parseTimeUnits
+//@   opt safety-tag=C05
+//@   requires len(value) >= 1
+//@   modifies fresh
+
+//@ func stringsReverseIndexByte
+//@   opt safety-tag=C05
+//@   ensures[C05] ret >= -1 && ret < len(s)
+//@   modifies nothing
+//@   loop 1
+//@     invariant i <= len(s) - 1
+
+//@ func parsePort
+//@   opt safety-tag=C05
+//@   modifies fresh
+
+//@ func indexOf
+//@   opt safety-tag=C05
+//@   modifies nothing
+
+// --- session-level lines: they write fields of s and fresh memory only --------------------
+//@ func unmarshalProtocolVersion
+//@   opt safety-tag=C05
+//@   modifies fresh
+//@ func unmarshalSessionName
+//@   opt safety-tag=C05
+//@   modifies fields(s), fresh
+//@ func unmarshalOrigin
+//@   opt safety-tag=C05
+//@   modifies fields(s), fresh
+//@ func unmarshalSessionInformation
+//@   opt safety-tag=C05
+//@   modifies fields(s), fresh
+//@ func unmarshalURI
+//@   opt safety-tag=C05
+//@   modifies fields(s), fresh
+//@ func unmarshalEmail
+//@   opt safety-tag=C05
+//@   modifies fields(s), fresh
+//@ func unmarshalPhone
+//@   opt safety-tag=C05
+//@   modifies fields(s), fresh
+//@ func unmarshalConnectionInformation
+//@   opt safety-tag=C05
+//@   modifies fresh
+//@ func unmarshalSessionConnectionInformation
+//@   opt safety-tag=C05
+//@   modifies fields(s), fresh
+//@ func unmarshalBandwidth
+//@   opt safety-tag=C05
+//@   ensures[C05] err == nil ==> ret != nil
+//@   modifies all(string), fresh
+//@ func unmarshalSessionBandwidth
+//@   opt safety-tag=C05
+//@   modifies fields(s), all(sdp.Bandwidth), all(string), fresh
+//@ func unmarshalTimeZones
+//@   opt safety-tag=C05
+//@   modifies fields(s), all(sdp.TimeZone), fresh
+//@   loop 1
+//@     invariant 0 <= i && i % 2 == 0 && len(fields) % 2 == 0
+//@ func unmarshalSessionEncryptionKey
+//@   opt safety-tag=C05
+//@   modifies fields(s), fresh
+//@ func unmarshalSessionAttribute
+//@   opt safety-tag=C05
+//@   modifies fields(s), all(sdp.Attribute), fresh
+//@ func unmarshalTiming
+//@   opt safety-tag=C05
+//@   ensures[C05] err == nil ==> len(s.TimeDescriptions) >= 1
+//@   modifies fields(s), all(sdp.TimeDescription), fresh
+//@ func unmarshalRepeatTimes
+//@   opt safety-tag=C05
+//@   requires len(s.TimeDescriptions) >= 1
+//@   ensures[C05] len(s.TimeDescriptions) >= 1
+//@   modifies all(sdp.TimeDescription), all(sdp.RepeatTime), all(int64), fresh
+
+// --- media-level lines: a new media description is appended, or the last one is written ----
+//@ func unmarshalMediaDescription
+//@   opt safety-tag=C05
+//@   ensures[C05] err == nil ==> hasMedia(s)
+//@   ensures[C05] err != nil && old(hasMedia(s)) ==> hasMedia(s)
+//@   modifies *
+//@ func unmarshalMediaTitle
+//@   opt safety-tag=C05
+//@   requires hasMedia(s)
+//@   modifies fields(s.MediaDescriptions[len(s.MediaDescriptions)-1]), fresh
+//@ func unmarshalMediaConnectionInformation
+//@   opt safety-tag=C05
+//@   requires hasMedia(s)
+//@   modifies fields(s.MediaDescriptions[len(s.MediaDescriptions)-1]), fresh
+//@ func unmarshalMediaBandwidth
+//@   opt safety-tag=C05
+//@   requires hasMedia(s)
+//@   modifies fields(s.MediaDescriptions[len(s.MediaDescriptions)-1]), all(sdp.Bandwidth), all(string), fresh
+//@ func unmarshalMediaEncryptionKey
+//@   opt safety-tag=C05
+//@   requires hasMedia(s)
+//@   modifies fields(s.MediaDescriptions[len(s.MediaDescriptions)-1]), fresh
+//@ func unmarshalMediaAttribute
+//@   opt safety-tag=C05
+//@   requires hasMedia(s)
+//@   modifies fields(s.MediaDescriptions[len(s.MediaDescriptions)-1]), all(sdp.Attribute), fresh
+
+// --- dispatch and line loop ---------------------------------------------------------------
+//@ func unmarshalSession
+//@   opt safety-tag=C05
+//@   requires *state == stateSession
+//@   ensures[C05] err == nil ==> (*state == stateMedia ==> hasMedia(s)) && (*state == stateTimeDescription ==> len(s.TimeDescriptions) >= 1)
+//@   ensures[C05] err == nil ==> *state == stateSession || *state == stateMedia || *state == stateTimeDescription
+//@   modifies *
+
+//@ func unmarshalMedia
+//@   opt safety-tag=C05
+//@   requires hasMedia(s)
+//@   ensures[C05] err == nil ==> hasMedia(s)
+//@   modifies *
+
+//@ func Unmarshal
+//@   opt safety-tag=C05
+//@   modifies *
+//@   rangefunc 1
+//@     invariant s != nil && (state == stateMedia ==> hasMedia(s)) && (state == stateTimeDescription ==> len(s.TimeDescriptions) >= 1)
